@@ -1,17 +1,1305 @@
-//! Engine `walk` — placeholder (not written yet).
+//! Engine `walk` (C05, and the walk bound of C03): `minidump_unwind::walk_stack` on arbitrary
+//! contexts / stack bytes / module lists / symbol records against the Lean model `MdModel.Walk`,
+//! plus the property's own oracle (`WF`) evaluated on the implementation's `CallStack`.
+//!
+//! case line (see lean/MdModel/Walk.lean):
+//!   walk <arch> <os> ctx:<r=v,..> valid:<all|-|r,..> stack:<none|base:hex> mods:<-|base:size:name,..>
+//!        (sym:<module>:<records>)* (symraw:<module>:<hex text>)*
+//! `symraw` fields carry arbitrary symbol text (corrupted files, STACK WIN records): such cases are
+//! oracle-only (the model is not asked). The shared pieces are `pub` for the `chain` engine.
+
 use crate::common::*;
+use minidump::format as md;
+use minidump::system_info::{Cpu, Os};
+use minidump::*;
+use minidump_unwind::{string_symbol_supplier, walk_stack, CallStack, FrameTrust, Symbolizer, SystemInfo};
+use std::collections::{HashMap, HashSet};
 
 pub struct Walk;
+
+pub const ARCHS: &[&str] = &["x86", "amd64", "arm", "arm64", "arm64old", "mips32", "mips64"];
+pub const OSES: &[&str] = &["windows", "linux", "macos", "ios", "android"];
+
+#[derive(Clone, Debug, PartialEq)]
+pub enum Rec {
+    F { addr: u64, size: u32, psize: u32, name: String },
+    P { addr: u64, psize: u32, name: String },
+    C { addr: u64, size: u32, rules: String },
+    A { addr: u64, rules: String },
+}
+
+#[derive(Clone, Debug, Default)]
+pub struct Case {
+    pub engine: String,
+    pub arch: String,
+    pub os: String,
+    pub regs: Vec<(String, u64)>,
+    pub valid: Option<Vec<String>>,
+    pub stack: Option<(u64, Vec<u8>)>,
+    pub mods: Vec<(u64, u32, String)>,
+    pub syms: Vec<(String, Vec<Rec>)>,
+    pub symraw: Vec<(String, Vec<u8>)>,
+    /// extra leading fields of other engines (`chain` puts its technique/expectation there)
+    pub extra: Vec<String>,
+}
+
+pub fn ptr_of(arch: &str) -> u64 {
+    match arch {
+        "x86" | "arm" | "mips32" => 4,
+        _ => 8,
+    }
+}
+pub fn adj_of(arch: &str) -> u64 {
+    match arch {
+        "x86" | "amd64" => 1,
+        "arm" => 2,
+        "arm64" | "arm64old" => 4,
+        _ => 8,
+    }
+}
+pub fn reg_max(arch: &str) -> u64 {
+    match arch {
+        "x86" | "arm" => u32::MAX as u64,
+        _ => u64::MAX, // MIPS contexts store u64 in both modes
+    }
+}
+pub fn ip_name(arch: &str) -> &'static str {
+    match arch {
+        "x86" => "eip",
+        "amd64" => "rip",
+        _ => "pc",
+    }
+}
+pub fn sp_name(arch: &str) -> &'static str {
+    match arch {
+        "x86" => "esp",
+        "amd64" => "rsp",
+        _ => "sp",
+    }
+}
+pub fn fp_name(arch: &str) -> &'static str {
+    match arch {
+        "x86" => "ebp",
+        "amd64" => "rbp",
+        _ => "fp",
+    }
+}
+pub fn registers(arch: &str) -> &'static [&'static str] {
+    match arch {
+        "x86" => &["eip", "esp", "ebp", "ebx", "esi", "edi", "eax", "ecx", "edx", "eflags"],
+        "amd64" => &[
+            "rax", "rdx", "rcx", "rbx", "rsi", "rdi", "rbp", "rsp", "r8", "r9", "r10", "r11", "r12", "r13", "r14", "r15", "rip",
+        ],
+        "arm" => &["r0", "r1", "r2", "r3", "r4", "r5", "r6", "r7", "r8", "r9", "r10", "r12", "fp", "sp", "lr", "pc"],
+        "arm64" | "arm64old" => &[
+            "x0", "x1", "x2", "x3", "x4", "x5", "x6", "x7", "x8", "x9", "x10", "x11", "x12", "x13", "x14", "x15", "x16", "x17",
+            "x18", "x19", "x20", "x21", "x22", "x23", "x24", "x25", "x26", "x27", "x28", "fp", "lr", "sp", "pc",
+        ],
+        _ => &["gp", "sp", "fp", "ra", "pc", "s0", "s1", "s2", "s3", "s4", "s5", "s6", "s7"],
+    }
+}
+pub fn alias_names(arch: &str) -> &'static [&'static str] {
+    match arch {
+        "arm" => &["r11", "r13", "r14", "r15"],
+        "arm64" | "arm64old" => &["x29", "x30"],
+        _ => &[],
+    }
+}
+fn static_name(arch: &str, n: &str) -> Option<&'static str> {
+    registers(arch).iter().chain(alias_names(arch).iter()).find(|x| **x == n).copied()
+}
+
+// ------------------------------------------------------------------------------------ case text
+
+fn enc_rules(r: &str) -> String {
+    r.replace(' ', "_")
+}
+fn dec_rules(r: &str) -> String {
+    r.replace('_', " ")
+}
+
+pub fn render_recs(recs: &[Rec]) -> String {
+    recs.iter()
+        .map(|r| match r {
+            Rec::F { addr, size, psize, name } => format!("F|{addr}|{size}|{psize}|{name}"),
+            Rec::P { addr, psize, name } => format!("P|{addr}|{psize}|{name}"),
+            Rec::C { addr, size, rules } => format!("C|{addr}|{size}|{}", enc_rules(rules)),
+            Rec::A { addr, rules } => format!("A|{addr}|{}", enc_rules(rules)),
+        })
+        .collect::<Vec<_>>()
+        .join(";")
+}
+
+impl Case {
+    pub fn render(&self) -> String {
+        let mut s = format!("{} ", self.engine);
+        for e in &self.extra {
+            s.push_str(e);
+            s.push(' ');
+        }
+        s.push_str(&format!("{} {} ctx:", self.arch, self.os));
+        s.push_str(&self.regs.iter().map(|(n, v)| format!("{n}={v}")).collect::<Vec<_>>().join(","));
+        s.push_str(" valid:");
+        match &self.valid {
+            None => s.push_str("all"),
+            Some(v) if v.is_empty() => s.push('-'),
+            Some(v) => s.push_str(&v.join(",")),
+        }
+        match &self.stack {
+            None => s.push_str(" stack:none"),
+            Some((b, bytes)) => s.push_str(&format!(" stack:{}:{}", b, hex(bytes))),
+        }
+        s.push_str(" mods:");
+        if self.mods.is_empty() {
+            s.push('-');
+        } else {
+            s.push_str(&self.mods.iter().map(|(b, z, n)| format!("{b}:{z}:{n}")).collect::<Vec<_>>().join(","));
+        }
+        for (n, recs) in &self.syms {
+            s.push_str(&format!(" sym:{}:{}", n, render_recs(recs)));
+        }
+        for (n, text) in &self.symraw {
+            s.push_str(&format!(" symraw:{}:{}", n, hex(text)));
+        }
+        s
+    }
+
+    /// `n_extra`: number of engine-specific fields between the engine name and the architecture
+    pub fn parse(line: &str, n_extra: usize) -> Option<Case> {
+        let f: Vec<&str> = line.split(' ').filter(|s| !s.is_empty()).collect();
+        if f.len() < 7 + n_extra {
+            return None;
+        }
+        let mut c = Case { engine: f[0].to_string(), ..Default::default() };
+        c.extra = f[1..1 + n_extra].iter().map(|s| s.to_string()).collect();
+        let f = &f[1 + n_extra..];
+        c.arch = f[0].to_string();
+        if !ARCHS.contains(&f[0]) {
+            return None;
+        }
+        c.os = f[1].to_string();
+        let regs = f[2].strip_prefix("ctx:")?;
+        for a in regs.split(',').filter(|s| !s.is_empty()) {
+            let (n, v) = a.split_once('=')?;
+            let v: u64 = v.parse().ok()?;
+            static_name(&c.arch, n)?;
+            if v > reg_max(&c.arch) {
+                return None;
+            }
+            c.regs.push((n.to_string(), v));
+        }
+        let valid = f[3].strip_prefix("valid:")?;
+        c.valid = match valid {
+            "all" => None,
+            "-" => Some(vec![]),
+            v => Some(v.split(',').filter(|s| !s.is_empty()).map(|s| s.to_string()).collect()),
+        };
+        let stack = f[4].strip_prefix("stack:")?;
+        c.stack = if stack == "none" {
+            None
+        } else {
+            let (b, h) = stack.split_once(':')?;
+            Some((b.parse().ok()?, unhex(h)?))
+        };
+        let mods = f[5].strip_prefix("mods:")?;
+        if mods != "-" {
+            for m in mods.split(',').filter(|s| !s.is_empty()) {
+                let p: Vec<&str> = m.split(':').collect();
+                if p.len() != 3 {
+                    return None;
+                }
+                c.mods.push((p[0].parse().ok()?, p[1].parse().ok()?, p[2].to_string()));
+            }
+        }
+        for s in &f[6..] {
+            if let Some(body) = s.strip_prefix("sym:") {
+                let (n, recs) = body.split_once(':').unwrap_or((body, ""));
+                let mut out = vec![];
+                for r in recs.split(';').filter(|s| !s.is_empty()) {
+                    let p: Vec<&str> = r.split('|').collect();
+                    out.push(match p.as_slice() {
+                        ["F", a, z, ps, n] => Rec::F { addr: a.parse().ok()?, size: z.parse().ok()?, psize: ps.parse().ok()?, name: n.to_string() },
+                        ["P", a, ps, n] => Rec::P { addr: a.parse().ok()?, psize: ps.parse().ok()?, name: n.to_string() },
+                        ["C", a, z, r] => Rec::C { addr: a.parse().ok()?, size: z.parse().ok()?, rules: dec_rules(r) },
+                        ["A", a, r] => Rec::A { addr: a.parse().ok()?, rules: dec_rules(r) },
+                        _ => return None,
+                    });
+                }
+                c.syms.push((n.to_string(), out));
+            } else if let Some(body) = s.strip_prefix("symraw:") {
+                let (n, h) = body.split_once(':')?;
+                c.symraw.push((n.to_string(), unhex(h)?));
+            } else {
+                return None;
+            }
+        }
+        Some(c)
+    }
+}
+
+/// breakpad text of a record list
+pub fn sym_text(name: &str, recs: &[Rec]) -> String {
+    let mut t = format!("MODULE Linux x86 000000000000000000000000000000000 {name}\n");
+    for r in recs {
+        match r {
+            Rec::F { addr, size, psize, name } => t.push_str(&format!("FUNC {addr:x} {size:x} {psize:x} {name}\n")),
+            Rec::P { addr, psize, name } => t.push_str(&format!("PUBLIC {addr:x} {psize:x} {name}\n")),
+            Rec::C { addr, size, rules } => t.push_str(&format!("STACK CFI INIT {addr:x} {size:x} {rules}\n")),
+            Rec::A { addr, rules } => t.push_str(&format!("STACK CFI {addr:x} {rules}\n")),
+        }
+    }
+    t
+}
+
+// ----------------------------------------------------------------------------- running the code
+
+fn set_all<C: CpuContext>(c: &mut C, regs: &[(String, u64)], conv: impl Fn(u64) -> C::Register) {
+    for (n, v) in regs {
+        c.set_register(n, conv(*v)).expect("register name");
+    }
+}
+
+pub fn build_context(case: &Case) -> MinidumpContext {
+    let raw = match case.arch.as_str() {
+        "x86" => {
+            let mut c = md::CONTEXT_X86::default();
+            set_all(&mut c, &case.regs, |v| v as u32);
+            MinidumpRawContext::X86(c)
+        }
+        "amd64" => {
+            let mut c = md::CONTEXT_AMD64::default();
+            set_all(&mut c, &case.regs, |v| v);
+            MinidumpRawContext::Amd64(c)
+        }
+        "arm" => {
+            let mut c = md::CONTEXT_ARM::default();
+            set_all(&mut c, &case.regs, |v| v as u32);
+            MinidumpRawContext::Arm(c)
+        }
+        "arm64" => {
+            let mut c = md::CONTEXT_ARM64::default();
+            set_all(&mut c, &case.regs, |v| v);
+            MinidumpRawContext::Arm64(c)
+        }
+        "arm64old" => {
+            let mut c = md::CONTEXT_ARM64_OLD::default();
+            set_all(&mut c, &case.regs, |v| v);
+            MinidumpRawContext::OldArm64(c)
+        }
+        m => {
+            let mut c = md::CONTEXT_MIPS::default();
+            c.context_flags = if m == "mips64" {
+                (md::ContextFlagsCpu::CONTEXT_MIPS | md::ContextFlagsCpu::CONTEXT_MIPS64).bits()
+            } else {
+                md::ContextFlagsCpu::CONTEXT_MIPS.bits()
+            };
+            set_all(&mut c, &case.regs, |v| v);
+            MinidumpRawContext::Mips(c)
+        }
+    };
+    let valid = match &case.valid {
+        None => MinidumpContextValidity::All,
+        Some(names) => {
+            MinidumpContextValidity::Some(names.iter().map(|n| static_name(&case.arch, n).expect("validity name")).collect::<HashSet<_>>())
+        }
+    };
+    MinidumpContext { raw, valid }
+}
+
+pub fn system_info(case: &Case) -> SystemInfo {
+    SystemInfo {
+        os: match case.os.as_str() {
+            "windows" => Os::Windows,
+            "ios" => Os::Ios,
+            "macos" => Os::MacOs,
+            "android" => Os::Android,
+            _ => Os::Linux,
+        },
+        os_version: None,
+        os_build: None,
+        cpu: match case.arch.as_str() {
+            "x86" => Cpu::X86,
+            "amd64" => Cpu::X86_64,
+            "arm" => Cpu::Arm,
+            "arm64" | "arm64old" => Cpu::Arm64,
+            "mips32" => Cpu::Mips,
+            _ => Cpu::Mips64,
+        },
+        cpu_info: None,
+        cpu_microcode_version: None,
+        cpu_count: 1,
+    }
+}
+
+thread_local! {
+    static RT: tokio::runtime::Runtime = tokio::runtime::Builder::new_current_thread().build().unwrap();
+}
+
+pub fn symbol_map(case: &Case) -> HashMap<String, String> {
+    let mut m = HashMap::new();
+    for (n, recs) in &case.syms {
+        m.insert(n.clone(), sym_text(n, recs));
+    }
+    for (n, text) in &case.symraw {
+        m.insert(n.clone(), String::from_utf8_lossy(text).into_owned());
+    }
+    m
+}
+
+/// the real walker on the case; `Err` = it panicked
+pub fn run_walk(case: &Case) -> Result<CallStack, String> {
+    let context = build_context(case);
+    let modules = MinidumpModuleList::from_modules(case.mods.iter().map(|(b, z, n)| MinidumpModule::new(*b, *z, n)).collect());
+    let sysinfo = system_info(case);
+    let symbols = symbol_map(case);
+    if std::env::var("WALK_PANIC_LOC").is_ok() {
+        std::panic::set_hook(Box::new(|i| eprintln!("panic at {:?}", i.location())));
+    }
+    catch(|| {
+        let symbolizer = Symbolizer::new(string_symbol_supplier(symbols));
+        let mut stack = CallStack::with_context(context);
+        let mem = case.stack.as_ref().map(|(base, bytes)| MinidumpMemory {
+            desc: Default::default(),
+            base_address: *base,
+            size: bytes.len() as u64,
+            bytes,
+            endian: scroll::LE,
+        });
+        // a walk that does not stop would exhaust memory: cut it off well past the C03 bound
+        let limit = case.stack.as_ref().map(|s| s.1.len()).unwrap_or(0) + 64;
+        let guard = move |idx: usize, _f: &minidump_unwind::StackFrame| {
+            if idx > limit {
+                panic!("walk exceeded {limit} frames (stack bytes + 64): no progress");
+            }
+        };
+        RT.with(|rt| {
+            rt.block_on(walk_stack(0, guard, &mut stack, mem.as_ref().map(UnifiedMemory::Memory), &modules, &sysinfo, &symbolizer))
+        });
+        stack
+    })
+}
+
+pub fn trust_str(t: FrameTrust) -> &'static str {
+    t.as_str()
+}
+
+/// canonical line of a call stack (same format as the model's answer)
+pub fn show_stack(case: &Case, stack: &CallStack) -> String {
+    let mut out = String::from("frames:");
+    for (i, f) in stack.frames.iter().enumerate() {
+        if i > 0 {
+            out.push(';');
+        }
+        let m = match &f.module {
+            Some(m) => case
+                .mods
+                .iter()
+                .position(|(b, z, n)| *b == m.base_address() && *z as u64 == m.size() && *n == m.name)
+                .map(|i| i.to_string())
+                .unwrap_or_else(|| "?".into()),
+            None => "-".into(),
+        };
+        let func = match (&f.function_name, f.function_base, f.parameter_size) {
+            (Some(n), Some(b), Some(p)) => format!("{n}@{b}/{p}"),
+            (None, None, None) => "-".into(),
+            _ => "?".into(),
+        };
+        let valid = match &f.context.valid {
+            MinidumpContextValidity::All => "all".to_string(),
+            MinidumpContextValidity::Some(set) => {
+                let mut names: Vec<&&str> = set.iter().collect();
+                names.sort();
+                names.iter().map(|n| format!("{}={}", n, f.context.get_register_always(n))).collect::<Vec<_>>().join(",")
+            }
+        };
+        out.push_str(&format!(
+            "{}|ip={}|in={}|sp={}|m={}|f={}|v={}",
+            trust_str(f.trust),
+            f.context.get_instruction_pointer(),
+            f.instruction,
+            f.context.get_stack_pointer(),
+            m,
+            func,
+            valid
+        ));
+    }
+    out
+}
+
+fn read_le(bytes: &[u8], off: u64, w: u64) -> Option<u64> {
+    let off = usize::try_from(off).ok()?;
+    let end = off.checked_add(w as usize)?;
+    let s = bytes.get(off..end)?;
+    let mut v = 0u64;
+    for (i, b) in s.iter().enumerate() {
+        v |= (*b as u64) << (8 * i);
+    }
+    Some(v)
+}
+
+/// The property's oracle: C05's `WF` (and C03's frame bound) evaluated on what `walk_stack`
+/// returned, using nothing but the case's inputs.
+pub fn wf_oracle(case: &Case, stack: &CallStack) -> Vec<(String, String)> {
+    let mut bad: Vec<(String, String)> = vec![];
+    let arch = case.arch.as_str();
+    let frames = &stack.frames;
+    let Some(f0) = frames.first() else {
+        bad.push(("no-context-frame".into(), "walk_stack returned no frame".into()));
+        return bad;
+    };
+    let ip0 = case.regs.iter().rev().find(|(n, _)| canon(arch, n) == ip_name(arch)).map(|x| x.1).unwrap_or(0);
+    if f0.trust != FrameTrust::Context || f0.instruction != ip0 || f0.resume_address != ip0 || f0.context.get_instruction_pointer() != ip0 {
+        bad.push((
+            "context-frame".into(),
+            format!("frame 0: trust={} instruction={} resume={} context ip={ip0}", f0.trust.as_str(), f0.instruction, f0.resume_address),
+        ));
+    }
+    let leaf_ok = !matches!(arch, "x86" | "amd64");
+    for (i, f) in frames.iter().enumerate() {
+        let ra = f.resume_address;
+        if f.context.get_instruction_pointer() != ra {
+            bad.push(("resume-not-context-ip".into(), format!("frame {i}: resume_address {ra} != context ip {}", f.context.get_instruction_pointer())));
+        }
+        if i > 0 {
+            let prev = &frames[i - 1];
+            if ra < 4096 {
+                bad.push(("return-address-below-4096".into(), format!("frame {i}: return address {ra}")));
+            }
+            if Some(f.instruction) != ra.checked_sub(adj_of(arch)) {
+                bad.push(("lookup-address-not-adjusted".into(), format!("frame {i}: instruction {} for return address {ra} (adjustment {})", f.instruction, adj_of(arch))));
+            }
+            if !matches!(f.trust, FrameTrust::CallFrameInfo | FrameTrust::FramePointer | FrameTrust::Scan) {
+                bad.push(("trust-not-cfi-fp-scan".into(), format!("frame {i}: trust {}", f.trust.as_str())));
+            }
+            let (sp, psp) = (f.context.get_stack_pointer(), prev.context.get_stack_pointer());
+            let repeat_ok = leaf_ok && i == 1 && sp == psp;
+            if sp <= psp && !repeat_ok {
+                bad.push(("sp-not-increasing".into(), format!("frame {}: sp {psp} -> frame {i}: sp {sp}", i - 1)));
+            }
+            if f.trust == FrameTrust::Scan {
+                // width of the word the previous frame was scanned with
+                let w = match &prev.context.raw {
+                    MinidumpRawContext::Mips(c) => {
+                        if c.context_flags & md::ContextFlagsCpu::CONTEXT_MIPS64.bits() != 0 {
+                            8
+                        } else {
+                            4
+                        }
+                    }
+                    _ => ptr_of(arch),
+                };
+                let word = case.stack.as_ref().and_then(|(base, bytes)| {
+                    let addr = sp.checked_sub(w)?;
+                    read_le(bytes, addr.checked_sub(*base)?, w)
+                });
+                if word != Some(ra) {
+                    bad.push(("scan-word-mismatch".into(), format!("frame {i}: sp {sp}, return address {ra}, word below sp inside the stack memory: {word:?}")));
+                }
+            }
+        }
+        // module / function cover the lookup address
+        if let Some(m) = &f.module {
+            let (b, z) = (m.base_address(), m.size());
+            if !(b <= f.instruction && f.instruction - b < z) {
+                bad.push(("module-does-not-cover".into(), format!("frame {i}: instruction {} module {}+{}", f.instruction, b, z)));
+            }
+            if let (Some(name), Some(fb)) = (&f.function_name, f.function_base) {
+                let mut ok = fb <= f.instruction && fb >= b;
+                if ok {
+                    if let Some((_, recs)) = case.syms.iter().find(|(n, _)| *n == m.name) {
+                        let rel = f.instruction - b;
+                        ok = recs.iter().any(|r| match r {
+                            Rec::F { addr, size, name: n, .. } => addr + b == fb && n == name && *addr <= rel && rel - addr < *size as u64,
+                            // a PUBLIC has no end: it covers every address at or above it (whether a FUNC
+                            // in between should cut it short is C11's question, not asked here)
+                            Rec::P { addr, name: n, .. } => addr + b == fb && n == name && *addr <= rel,
+                            _ => false,
+                        });
+                    }
+                }
+                if !ok {
+                    bad.push(("function-does-not-cover".into(), format!("frame {i}: instruction {} function {name}@{fb} module base {b}", f.instruction)));
+                }
+            }
+        } else if f.function_name.is_some() {
+            bad.push(("function-without-module".into(), format!("frame {i}")));
+        }
+    }
+    // C03: no thread is walked for more frames than its stack memory has bytes (plus two)
+    let bytes = case.stack.as_ref().map(|s| s.1.len()).unwrap_or(0);
+    if frames.len() > bytes + 2 {
+        bad.push(("too-many-frames".into(), format!("{} frames for {} bytes of stack memory", frames.len(), bytes)));
+    }
+    bad
+}
+
+pub fn canon(arch: &str, n: &str) -> &'static str {
+    match (arch, n) {
+        ("arm", "r11") => "fp",
+        ("arm", "r13") => "sp",
+        ("arm", "r14") => "lr",
+        ("arm", "r15") => "pc",
+        ("arm64" | "arm64old", "x29") => "fp",
+        ("arm64" | "arm64old", "x30") => "lr",
+        _ => static_name(arch, n).unwrap_or("?"),
+    }
+}
+
+/// distribution tags of a walk
+pub fn walk_tags(case: &Case, stack: &CallStack, res: &mut ImplResult) {
+    res.tags.push(format!("arch:{}", case.arch));
+    res.tags.push(format!("os:{}", case.os));
+    let n = stack.frames.len();
+    res.tags.push(format!("frames:{}", if n <= 4 { n.to_string() } else if n <= 16 { "5-16".into() } else { "17+".into() }));
+    for f in stack.frames.iter().skip(1) {
+        res.tags.push(format!("via:{}", f.trust.as_str()));
+    }
+    if let Some((base, bytes)) = &case.stack {
+        if base.checked_add(bytes.len() as u64).map_or(true, |e| e >= u64::MAX - 64) {
+            res.tags.push("stack-at-top".into());
+        }
+        let sp = stack.frames[0].context.get_stack_pointer();
+        if sp < *base || sp - *base >= bytes.len() as u64 {
+            res.tags.push("sp-outside-stack".into());
+        }
+    }
+    if stack.frames.len() > 1 && stack.frames[1].context.get_stack_pointer() == stack.frames[0].context.get_stack_pointer() {
+        res.tags.push("leaf-repeat".into());
+    }
+}
+
+// ----------------------------------------------------------------------------------- generator
+
+fn boundary(rng: &mut Rng, arch: &str) -> u64 {
+    let m = reg_max(arch).min(if ptr_of(arch) == 4 { u32::MAX as u64 } else { u64::MAX });
+    match rng.below(8) {
+        0 => 0,
+        1 => u32::MAX as u64,
+        2 => m,
+        3 => m - rng.below(32),
+        4 => rng.below(8192),
+        5 => (u32::MAX as u64).wrapping_add(rng.below(16)).min(m),
+        _ => rng.next() & m,
+    }
+}
+
+pub struct World {
+    pub mods: Vec<(u64, u32, String)>,
+    pub syms: Vec<(String, Vec<Rec>)>,
+    /// plausible return addresses: (absolute address, has a FUNC/PUBLIC covering it)
+    pub rets: Vec<u64>,
+}
+
+fn cfi_rules(rng: &mut Rng, arch: &str) -> String {
+    let d = if matches!(arch, "x86" | "amd64" | "mips32" | "mips64") { "$" } else { "" };
+    let sp = format!("{d}{}", sp_name(arch));
+    let fp = format!("{d}{}", fp_name(arch));
+    let w = ptr_of(arch) as i64;
+    let n: i64 = match rng.below(10) {
+        0 => 0,
+        1 => -w,
+        2 => -1,
+        3 => 1,
+        4 => w,
+        5 => 2 * w,
+        6 => 4 * w,
+        7 => rng.below(256) as i64,
+        8 => -(rng.below(64) as i64),
+        _ => 6 * w,
+    };
+    let cfa = match rng.below(12) {
+        0 => format!("{fp} {n} +"),
+        1 => format!("{}", rng.below(1 << 20)),
+        2 => ".cfa 8 +".to_string(),
+        3 => format!("{sp} {} @", 1u64 << rng.below(6)),
+        4 => format!("{sp} {n} -"),
+        5 => format!("{sp}"),
+        _ => format!("{sp} {n} +"),
+    };
+    let lr = match arch {
+        "arm" | "arm64" | "arm64old" => "lr".to_string(),
+        "mips32" | "mips64" => "$ra".to_string(),
+        _ => format!("{d}{}", ip_name(arch)),
+    };
+    let ra = match rng.below(12) {
+        0 => format!("{}", 4096 + rng.below(1 << 30)),
+        1 => format!("{}", rng.below(5000)),
+        2 => lr,
+        3 => ".undef".to_string(),
+        4 => format!(".cfa {} - ^", w),
+        5 => format!(".cfa {} + ^", rng.below(4) as i64 * w),
+        6 => format!("{sp} ^"),
+        7 => "$nosuchreg".to_string(),
+        8 => format!("{}", (1u64 << 32) + rng.below(1 << 20)),
+        _ => format!(".cfa -{} + ^", w),
+    };
+    let mut s = format!(".cfa: {cfa} .ra: {ra}");
+    // saved registers
+    let saved: &[&str] = match arch {
+        "x86" => &["$ebp", "$ebx", "$esi", "$edi", "$eax"],
+        "amd64" => &["$rbp", "$rbx", "$r12", "$r15", "$rax"],
+        "arm" => &["r4", "r7", "r11", "fp", "lr", "r14"],
+        "arm64" | "arm64old" => &["x19", "x29", "fp", "x30", "lr", "x0"],
+        _ => &["$s0", "$fp", "$gp", "$sp", "$ra"],
+    };
+    for _ in 0..rng.below(4) {
+        let r = *rng.pick(saved);
+        let e = match rng.below(6) {
+            0 => ".undef".to_string(),
+            1 => format!("{r}"),
+            2 => format!("{}", rng.next() >> rng.below(64)),
+            3 => "1 +".to_string(),
+            _ => format!(".cfa {} - ^", (2 + rng.below(6)) as i64 * w),
+        };
+        s.push_str(&format!(" {r}: {e}"));
+    }
+    s
+}
+
+pub fn gen_world(rng: &mut Rng, arch: &str, with_cfi: bool) -> World {
+    let wide = ptr_of(arch) == 8;
+    let nmods = rng.below(4);
+    let mut w = World { mods: vec![], syms: vec![], rets: vec![] };
+    for i in 0..nmods {
+        let base = match rng.below(if wide { 7 } else { 5 }) {
+            0 => 0x1000 + rng.below(0x4000),
+            1 => 0x40_0000 + rng.below(16) * 0x1_0000,
+            2 => 0xf000_0000u64 + rng.below(0x0ff0_0000),
+            3 => rng.below(0x2000),
+            4 => 0x0800_0000 + rng.below(0x100_0000),
+            5 => 0x7400_c000_0000u64 + rng.below(16) * 0x10_0000,
+            _ => match rng.below(3) {
+                0 => 0xffff_8000_0000_0000u64 + rng.below(1 << 30),
+                1 => (1u64 << 52) - 0x8000 + rng.below(0x10000),
+                _ => u64::MAX - rng.below(0x20000),
+            },
+        };
+        let size = match rng.below(6) {
+            0 => 0,
+            1 => 1 + rng.below(64),
+            2 => u32::MAX as u64,
+            _ => 0x1000 + rng.below(0x2_0000),
+        } as u32;
+        // sometimes overlap the previous module
+        let base = if i > 0 && rng.chance(1, 6) { w.mods[i as usize - 1].0.wrapping_add(rng.below(0x800)) } else { base };
+        let name = format!("m{i}");
+        let mut recs = vec![];
+        let have_syms = rng.chance(3, 4);
+        if have_syms {
+            let nf = rng.below(5);
+            let mut at = rng.below(0x200);
+            for k in 0..nf {
+                let size = match rng.below(8) {
+                    0 => 0,
+                    1 => 1,
+                    _ => 8 + rng.below(0x400),
+                };
+                recs.push(Rec::F { addr: at, size: size as u32, psize: rng.below(3) as u32 * 4, name: format!("f{i}x{k}") });
+                if with_cfi && rng.chance(2, 3) {
+                    recs.push(Rec::C { addr: at, size: if rng.chance(1, 8) { size as u32 / 2 } else { size as u32 }, rules: cfi_rules(rng, arch) });
+                    for _ in 0..rng.below(3) {
+                        recs.push(Rec::A { addr: at + rng.below(size.max(1) + 2), rules: cfi_rules(rng, arch) });
+                    }
+                }
+                // next function: adjacent, gap, or overlapping
+                at = match rng.below(6) {
+                    0 => at + size / 2,
+                    1 => at + size,
+                    _ => at + size + rng.below(0x80),
+                };
+            }
+            for k in 0..rng.below(3) {
+                recs.push(Rec::P { addr: rng.below(at + 0x100), psize: 0, name: format!("p{i}x{k}") });
+            }
+            if with_cfi && rng.chance(1, 4) {
+                // CFI without a FUNC
+                recs.push(Rec::C { addr: at + 0x100, size: 0x100, rules: cfi_rules(rng, arch) });
+            }
+            w.syms.push((name.clone(), recs.clone()));
+        }
+        // plausible return addresses inside this module
+        if size > 0 {
+            for r in &recs {
+                if let Rec::F { addr, size: fs, .. } = r {
+                    if *fs > 0 {
+                        w.rets.push(base.wrapping_add(*addr + rng.below(*fs as u64 + 1)));
+                    }
+                }
+                if let Rec::P { addr, .. } = r {
+                    w.rets.push(base.wrapping_add(*addr + 1 + rng.below(16)));
+                }
+            }
+            w.rets.push(base.wrapping_add(rng.below(size as u64)));
+            w.rets.push(base.wrapping_add(1));
+            w.rets.push(base.wrapping_add(size as u64));
+        }
+        w.mods.push((base, size, name));
+    }
+    if !wide {
+        w.rets.retain(|r| *r <= u32::MAX as u64);
+    }
+    w
+}
+
+fn gen_stack(rng: &mut Rng, arch: &str, world: &World) -> (u64, Vec<u8>) {
+    let p = ptr_of(arch);
+    let wide = p == 8;
+    let words = match rng.below(10) {
+        0 => 0,
+        1 => rng.below(4),
+        2 => 160 + rng.below(120),
+        3 => 256 + rng.below(64),
+        _ => 4 + rng.below(80),
+    };
+    let mut len = words * p + if rng.chance(1, 6) { rng.below(p) } else { 0 };
+    let top: u64 = if wide { u64::MAX } else { u32::MAX as u64 };
+    let base = match rng.below(12) {
+        0 => (top - len).wrapping_add(1),          // base + size = 2^w exactly
+        1 => top - len,                          // ends one below the top
+        2 => (top - len).saturating_sub(rng.below(64)),
+        3 => top - rng.below(len + 1),           // overflows the address space
+        4 => rng.below(64),
+        5 if wide => (1u64 << 32) - rng.below(len + 1),
+        6 if wide => 0x7fff_ffff_f000 - rng.below(0x1000),
+        _ => (0x1000 + (rng.next() & if wide { 0x0000_7fff_ffff_ffff } else { 0x7fff_ffff })) & !(p - 1) | if rng.chance(1, 10) { rng.below(p) } else { 0 },
+    };
+    if !wide && rng.chance(1, 30) {
+        len = len.min(64);
+    }
+    let mut bytes = vec![0u8; len as usize];
+    let nwords = len / p;
+    let addr_mask = if wide { u64::MAX } else { u32::MAX as u64 };
+    // plausible frame pointers form chains upwards
+    let ret_density = *rng.pick(&[0u64, 2, 5, 12, 40]);
+    for i in 0..nwords {
+        let here = base.wrapping_add(i * p);
+        let v: u64 = match rng.below(100) {
+            x if x < ret_density && !world.rets.is_empty() => *rng.pick(&world.rets),
+            x if x < ret_density + 15 => here.wrapping_add((1 + rng.below(12)) * p), // pointer up the stack
+            x if x < ret_density + 20 => here.wrapping_sub(rng.below(8) * p),       // pointer down / self
+            x if x < ret_density + 24 => boundary(rng, arch),
+            x if x < ret_density + 28 => rng.below(8192),
+            x if x < ret_density + 50 => rng.next(),
+            _ => 0,
+        } & addr_mask;
+        for k in 0..p {
+            bytes[(i * p + k) as usize] = (v >> (8 * k)) as u8;
+        }
+    }
+    (base, bytes)
+}
+
+fn gen_case(rng: &mut Rng, arch: &str, os: &str, with_cfi: bool) -> Case {
+    let p = ptr_of(arch);
+    let world = gen_world(rng, arch, with_cfi);
+    let stack = gen_stack(rng, arch, &world);
+    let (base, len) = (stack.0, stack.1.len() as u64);
+    let m = if p == 4 { u32::MAX as u64 } else { u64::MAX };
+    let inside = |rng: &mut Rng| -> u64 {
+        if len == 0 {
+            return base;
+        }
+        let words = (len / p).max(1);
+        (base.wrapping_add(match rng.below(8) {
+            0 => 0,
+            1 => len - 1,
+            2 => len.saturating_sub(p),
+            3 => rng.below(len),
+            _ => rng.below(words.min(24)) * p,
+        })) & m
+    };
+    let mut regs: Vec<(String, u64)> = vec![];
+    // instruction pointer
+    let ip = match rng.below(8) {
+        0 => boundary(rng, arch),
+        1 => rng.below(5000),
+        _ if !world.rets.is_empty() => *rng.pick(&world.rets),
+        _ => rng.next() & m,
+    };
+    regs.push((ip_name(arch).into(), ip & if arch.starts_with("mips") { u64::MAX } else { m }));
+    let sp = match rng.below(16) {
+        0 => boundary(rng, arch),
+        1 => base.wrapping_sub(1 + rng.below(16)) & m,
+        2 => base.wrapping_add(len + rng.below(16)) & m,
+        3 if arch.starts_with("mips") => inside(rng) | (rng.below(3) << 32),
+        _ => inside(rng),
+    };
+    regs.push((sp_name(arch).into(), sp));
+    let fp = match rng.below(10) {
+        0 => boundary(rng, arch),
+        1 => 0,
+        2 => sp,
+        3 => m - rng.below(24),
+        _ => inside(rng),
+    };
+    regs.push((fp_name(arch).into(), fp));
+    // a few other registers (callee-saved ones matter for CFI forwarding)
+    for r in registers(arch) {
+        if [ip_name(arch), sp_name(arch), fp_name(arch)].contains(r) {
+            continue;
+        }
+        if rng.chance(1, 4) {
+            let v = match rng.below(4) {
+                0 => inside(rng),
+                1 if !world.rets.is_empty() => *rng.pick(&world.rets),
+                _ => rng.next() & m,
+            };
+            regs.push((r.to_string(), v));
+        }
+    }
+    let valid = if rng.chance(4, 5) {
+        None
+    } else {
+        let mut v: Vec<String> = vec![];
+        for r in registers(arch).iter().chain(alias_names(arch).iter()) {
+            let important = [ip_name(arch), sp_name(arch), fp_name(arch)].contains(r);
+            if rng.chance(if important { 3 } else { 1 }, if important { 4 } else { 3 }) {
+                v.push(r.to_string());
+            }
+        }
+        Some(v)
+    };
+    Case {
+        engine: "walk".into(),
+        arch: arch.into(),
+        os: os.into(),
+        regs,
+        valid,
+        stack: if rng.chance(1, 40) { None } else { Some(stack) },
+        mods: world.mods,
+        syms: world.syms,
+        symraw: vec![],
+        extra: vec![],
+    }
+}
+
+
+/// function of a tidy world: module index, absolute start, size, frame size in words if it has CFI
+#[derive(Clone, Debug)]
+pub struct GFunc {
+    pub module: usize,
+    pub start: u64,
+    pub size: u64,
+    pub cfi_words: Option<u64>,
+    pub saves_fp: bool,
+}
+
+/// `$`-prefix convention of the breakpad dumpers per architecture
+pub fn reg_tok(arch: &str, r: &str) -> String {
+    if matches!(arch, "x86" | "amd64" | "mips32" | "mips64") {
+        format!("${r}")
+    } else {
+        r.to_string()
+    }
+}
+
+/// canonical rule `.cfa: $sp N + .ra: .cfa -W + ^ [fp: .cfa -2W + ^]`
+pub fn canonical_cfi(arch: &str, words: u64, saves_fp: bool) -> String {
+    let w = ptr_of(arch);
+    let mut s = format!(".cfa: {} {} + .ra: .cfa -{} + ^", reg_tok(arch, sp_name(arch)), words * w, w);
+    if saves_fp {
+        s.push_str(&format!(" {}: .cfa -{} + ^", reg_tok(arch, fp_name(arch)), 2 * w));
+    }
+    s
+}
+
+/// modules that do not overlap, each with FUNC records (some with canonical CFI)
+pub fn tidy_world(rng: &mut Rng, arch: &str, cfi_share: u64) -> (World, Vec<GFunc>) {
+    let wide = ptr_of(arch) == 8;
+    let mut w = World { mods: vec![], syms: vec![], rets: vec![] };
+    let mut funcs = vec![];
+    let nmods = 1 + rng.below(3);
+    let mut base: u64 = match rng.below(if wide { 4 } else { 3 }) {
+        0 => 0x1_0000 + rng.below(16) * 0x1000,
+        1 => 0x40_0000 + rng.below(64) * 0x1_0000,
+        2 => 0x7000_0000 + rng.below(0x100) * 0x1_0000,
+        _ => 0x7400_c000_0000u64 + rng.below(64) * 0x10_0000,
+    };
+    for i in 0..nmods as usize {
+        let name = format!("m{i}");
+        let mut recs = vec![];
+        let nf = 1 + rng.below(5);
+        let mut at = rng.below(0x100);
+        for k in 0..nf {
+            let size = 32 + rng.below(0x300);
+            let has_cfi = rng.below(100) < cfi_share;
+            let words = 1 + rng.below(12);
+            let saves_fp = has_cfi && words >= 2 && rng.chance(1, 2);
+            recs.push(Rec::F { addr: at, size: size as u32, psize: 0, name: format!("f{i}x{k}") });
+            if has_cfi {
+                recs.push(Rec::C { addr: at, size: size as u32, rules: canonical_cfi(arch, words, saves_fp) });
+            }
+            funcs.push(GFunc { module: i, start: base + at, size, cfi_words: if has_cfi { Some(words) } else { None }, saves_fp });
+            at += size + rng.below(0x40);
+        }
+        let msize = at + rng.below(0x1000) + 1;
+        w.syms.push((name.clone(), recs));
+        w.mods.push((base, msize as u32, name));
+        base += msize + rng.below(0x10_0000);
+    }
+    (w, funcs)
+}
+
+pub fn put_word(bytes: &mut [u8], idx: u64, p: u64, v: u64) {
+    for k in 0..p {
+        if let Some(b) = bytes.get_mut((idx * p + k) as usize) {
+            *b = (v >> (8 * k)) as u8;
+        }
+    }
+}
+
+/// mostly well-formed stacks: a chain of frames laid out for alternating techniques, then
+/// (half of the time) perturbed. No expectation is attached — the model and the oracle judge.
+fn gen_guided(rng: &mut Rng, arch: &str, os: &str) -> Case {
+    let p = ptr_of(arch);
+    let share = *rng.pick(&[0u64, 30, 60, 100]);
+    let (world, funcs) = tidy_world(rng, arch, share);
+    let nwords = 64 + rng.below(400);
+    let wide = p == 8;
+    let base: u64 = match rng.below(6) {
+        0 if wide => u64::MAX - nwords * p - rng.below(3) * p,
+        0 => (u32::MAX as u64 - nwords * p - rng.below(3) * p) & !(p - 1),
+        1 if wide => 0x8000_0000_8000_0000,
+        _ => (0x2000_0000 + rng.below(0x4000_0000)) & !(p - 1),
+    } & !(p - 1);
+    let mut bytes = vec![0u8; (nwords * p) as usize];
+    let maxd = *rng.pick(&[3u64, 8, 24, 64]);
+    let depth = 1 + rng.below(maxd);
+    let pick_ret = |rng: &mut Rng| -> (usize, u64) {
+        let k = rng.below(funcs.len() as u64) as usize;
+        let f = &funcs[k];
+        (k, f.start + adj_of(arch) + 1 + rng.below(f.size - adj_of(arch) - 1))
+    };
+    let (mut cur, ip) = {
+        let k = rng.below(funcs.len() as u64) as usize;
+        (k, funcs[k].start + rng.below(funcs[k].size))
+    };
+    let mut s = rng.below(4);
+    let sp0 = s;
+    let mut fp_idx = s + rng.below(6);
+    let fp0 = fp_idx;
+    let fp_arch = matches!(arch, "x86" | "amd64" | "arm64" | "arm64old") || (arch == "arm" && os == "ios");
+    for _ in 0..depth {
+        let (next, ret) = pick_ret(rng);
+        let f = &funcs[cur];
+        if let Some(n) = f.cfi_words {
+            if s + n + 8 >= nwords {
+                break;
+            }
+            put_word(&mut bytes, s + n - 1, p, ret);
+            if f.saves_fp {
+                fp_idx = s + n + rng.below(6);
+                put_word(&mut bytes, s + n - 2, p, base + fp_idx * p);
+            }
+            s += n;
+        } else if fp_arch && rng.chance(2, 3) {
+            let f_at = fp_idx.max(s);
+            if f_at + 12 >= nwords {
+                break;
+            }
+            let next_fp = f_at + 2 + rng.below(6);
+            put_word(&mut bytes, f_at, p, base + next_fp * p);
+            put_word(&mut bytes, f_at + 1, p, ret);
+            s = f_at + 2;
+            fp_idx = next_fp;
+        } else {
+            let k = rng.below(if arch == "mips32" { 12 } else { 8 }) + if arch == "mips32" { 4 } else { 0 };
+            if s + k + 8 >= nwords {
+                break;
+            }
+            put_word(&mut bytes, s + k, p, ret);
+            s += k + 1;
+        }
+        cur = next;
+    }
+    let m = if p == 4 { u32::MAX as u64 } else { u64::MAX };
+    let mut regs = vec![
+        (ip_name(arch).to_string(), ip & m),
+        (sp_name(arch).to_string(), (base + sp0 * p) & m),
+        (fp_name(arch).to_string(), (base + fp0 * p) & m),
+    ];
+    // perturbation
+    if rng.chance(1, 2) {
+        for _ in 0..1 + rng.below(3) {
+            match rng.below(5) {
+                0 => {
+                    let i = rng.below(3) as usize;
+                    regs[i].1 = match rng.below(4) {
+                        0 => boundary(rng, arch),
+                        1 => regs[i].1.wrapping_add(rng.below(9)).wrapping_sub(4) & m,
+                        _ => (base + rng.below(nwords) * p) & m,
+                    };
+                }
+                _ => {
+                    let i = rng.below(s + 4);
+                    let v = match rng.below(5) {
+                        0 => boundary(rng, arch),
+                        1 => (base + rng.below(nwords) * p) & m,
+                        2 => pick_ret(rng).1,
+                        3 => rng.below(8192),
+                        _ => 0,
+                    };
+                    put_word(&mut bytes, i, p, v);
+                }
+            }
+        }
+    }
+    let valid = if rng.chance(9, 10) {
+        None
+    } else {
+        let mut v: Vec<String> = vec![ip_name(arch).into(), sp_name(arch).into()];
+        if rng.chance(1, 2) {
+            v.push(fp_name(arch).into());
+        }
+        Some(v)
+    };
+    Case {
+        engine: "walk".into(),
+        arch: arch.into(),
+        os: os.into(),
+        regs,
+        valid,
+        stack: Some((base, bytes)),
+        mods: world.mods,
+        syms: world.syms,
+        symraw: vec![],
+        extra: vec![],
+    }
+}
+
+/// oracle-only variants: corrupted symbol text, STACK WIN records
+fn make_raw(rng: &mut Rng, mut c: Case) -> Case {
+    let syms = std::mem::take(&mut c.syms);
+    for (n, recs) in syms {
+        let mut text = sym_text(&n, &recs).into_bytes();
+        match rng.below(3) {
+            0 => {
+                // byte corruption
+                for _ in 0..1 + rng.below(4) {
+                    if !text.is_empty() {
+                        let i = rng.below(text.len() as u64) as usize;
+                        text[i] = *rng.pick(&[b' ', b'\n', b'0', b'f', b':', b'$', b'^', 0xff, b'-']);
+                    }
+                }
+            }
+            1 => {
+                // STACK WIN records (x86 style programs) over the functions
+                for r in &recs {
+                    if let Rec::F { addr, size, .. } = r {
+                        let prog = *rng.pick(&[
+                            "$T0 $ebp = $eip $T0 4 + ^ = $ebp $T0 ^ = $esp $T0 8 + =",
+                            "$eip $esp ^ = $esp $esp 4 + =",
+                            "$eip 4096 = $esp $esp 1 - =",
+                            "$eip .raSearchStart ^ = $esp .raSearchStart 4 + =",
+                            "$eip 70000 = $esp 0 =",
+                        ]);
+                        text.extend_from_slice(format!("STACK WIN 4 {addr:x} {size:x} 0 0 {:x} 0 {:x} 0 1 {prog}\n", rng.below(3) * 4, rng.below(4) * 4).as_bytes());
+                        if rng.chance(1, 3) {
+                            text.extend_from_slice(format!("STACK WIN 0 {addr:x} {size:x} 0 0 {:x} 0 {:x} 0 0 {}\n", rng.below(3) * 4, rng.below(4) * 4, rng.below(2)).as_bytes());
+                        }
+                    }
+                }
+            }
+            _ => {
+                let keep = rng.below(text.len() as u64 + 1) as usize;
+                text.truncate(keep);
+            }
+        }
+        c.symraw.push((n, text));
+    }
+    c
+}
 
 impl Engine for Walk {
     fn name(&self) -> &'static str {
         "walk"
     }
     fn rule(&self) -> String {
-        "not implemented".into()
+        "case = (arch in 7 context kinds/modes, os in 5, register context incl. boundary values 0/2^32-1/2^64-1 and sp inside/outside the stack, validity All or a random subset incl. alias names, stack memory at low/typical/4GiB/top-of-address-space bases incl. overflowing and empty ones with words drawn from {module return addresses, pointers up/down the stack, boundary values, random}, 0..3 modules incl. overlapping/zero-sized/huge ones, per-module FUNC/PUBLIC/STACK CFI records with cfa below/equal/above sp, constant/undefined/register/memory return addresses, saved-register rules). Model compared on every case with record-form symbols; cases with corrupted symbol text or STACK WIN records are oracle-only. non-trivial = the walk produced at least two frames or evaluated the in-range stop with a present stack; distinct = distinct case line".into()
     }
-    fn generate(&self, _tier: Tier, _rng: &mut Rng, _emit: &mut dyn FnMut(String)) {}
-    fn exec(&self, _case: &str) -> ImplResult {
-        ImplResult::default()
+
+    fn generate(&self, tier: Tier, rng: &mut Rng, emit: &mut dyn FnMut(String)) {
+        let n = if tier == Tier::Quick { 12000 } else { 200000 };
+        for arch in ARCHS {
+            for i in 0..n {
+                let os = OSES[(i % OSES.len() as u64) as usize];
+                // ARM frame pointers are iOS-only, the x64 probe is Windows-only: weight them
+                let os = match *arch {
+                    "arm" if i % 2 == 0 => "ios",
+                    "amd64" if i % 2 == 0 => "windows",
+                    _ => os,
+                };
+                let with_cfi = i % 3 != 0;
+                let c = if i % 2 == 1 { gen_guided(rng, arch, os) } else { gen_case(rng, arch, os, with_cfi) };
+                if i % 8 == 7 && !c.syms.is_empty() {
+                    emit(make_raw(rng, c).render());
+                } else {
+                    emit(c.render());
+                }
+            }
+        }
     }
+
+    fn exec(&self, case: &str) -> ImplResult {
+        let mut res = ImplResult::default();
+        let Some(c) = Case::parse(case, 0) else {
+            res.out = "bad-op".into();
+            return res;
+        };
+        match run_walk(&c) {
+            Err(msg) => {
+                res.out = "PANIC".into();
+                res.tags.push("panic".into());
+                if msg.starts_with("walk exceeded") {
+                    res.oracle.push(("too-many-frames".into(), msg));
+                } else {
+                    res.oracle.push(("walk-panics".into(), msg));
+                }
+            }
+            Ok(stack) => {
+                res.out = show_stack(&c, &stack);
+                res.oracle = wf_oracle(&c, &stack);
+                walk_tags(&c, &stack, &mut res);
+                let in_range = c.stack.as_ref().is_some_and(|(b, bytes)| {
+                    let sp = stack.frames[0].context.get_stack_pointer();
+                    !bytes.is_empty() && sp >= *b && sp - *b < bytes.len() as u64
+                });
+                res.nontrivial = stack.frames.len() >= 2 || in_range;
+            }
+        }
+        if !c.symraw.is_empty() {
+            res.tags.push("oracle-only".into());
+        }
+        res
+    }
+
+    fn model_request(&self, case: &str) -> Option<String> {
+        if case.contains(" symraw:") {
+            None
+        } else {
+            Some(case.to_string())
+        }
+    }
+
+    fn shrink(&self, case: &str, still_fails: &dyn Fn(&str) -> bool) -> String {
+        let Some(c) = Case::parse(case, 0) else { return case.to_string() };
+        shrink_case(c, 0, still_fails).render()
+    }
+}
+
+/// greedy structural shrinking shared with `chain`
+pub fn shrink_case(mut c: Case, _n_extra: usize, still_fails: &dyn Fn(&str) -> bool) -> Case {
+    let mut progress = true;
+    let mut rounds = 0;
+    while progress && rounds < 6 {
+        progress = false;
+        rounds += 1;
+        // drop symbol files, then records
+        let mut i = 0;
+        while i < c.syms.len() {
+            let mut d = c.clone();
+            d.syms.remove(i);
+            if still_fails(&d.render()) {
+                c = d;
+                progress = true;
+            } else {
+                i += 1;
+            }
+        }
+        for si in 0..c.syms.len() {
+            let mut i = 0;
+            while i < c.syms[si].1.len() {
+                let mut d = c.clone();
+                d.syms[si].1.remove(i);
+                // an `A` record must keep a `C` before it
+                let ok = !matches!(d.syms[si].1.first(), Some(Rec::A { .. }));
+                if ok && still_fails(&d.render()) {
+                    c = d;
+                    progress = true;
+                } else {
+                    i += 1;
+                }
+            }
+        }
+        let mut i = 0;
+        while i < c.symraw.len() {
+            let mut d = c.clone();
+            d.symraw.remove(i);
+            if still_fails(&d.render()) {
+                c = d;
+                progress = true;
+            } else {
+                i += 1;
+            }
+        }
+        // drop trailing modules (indices of the others stay put)
+        while !c.mods.is_empty() {
+            let mut d = c.clone();
+            d.mods.pop();
+            if still_fails(&d.render()) {
+                c = d;
+                progress = true;
+            } else {
+                break;
+            }
+        }
+        // shorten the stack from the end, then zero words
+        if let Some((base, bytes)) = c.stack.clone() {
+            let mut len = bytes.len();
+            let mut stepsz = len / 2;
+            while stepsz >= 1 {
+                if len >= stepsz {
+                    let mut d = c.clone();
+                    d.stack = Some((base, bytes[..len - stepsz].to_vec()));
+                    if still_fails(&d.render()) {
+                        len -= stepsz;
+                        c = d;
+                        progress = true;
+                        continue;
+                    }
+                }
+                stepsz /= 2;
+            }
+            let p = ptr_of(&c.arch) as usize;
+            let bytes = c.stack.clone().unwrap().1;
+            let mut cur = bytes.clone();
+            for w in 0..cur.len() / p {
+                if cur[w * p..(w + 1) * p].iter().all(|b| *b == 0) {
+                    continue;
+                }
+                let mut t = cur.clone();
+                for b in &mut t[w * p..(w + 1) * p] {
+                    *b = 0;
+                }
+                let mut d = c.clone();
+                d.stack = Some((base, t.clone()));
+                if still_fails(&d.render()) {
+                    cur = t;
+                    c = d;
+                    progress = true;
+                }
+            }
+        }
+        // drop register assignments
+        let mut i = 0;
+        while i < c.regs.len() {
+            let mut d = c.clone();
+            d.regs.remove(i);
+            if still_fails(&d.render()) {
+                c = d;
+                progress = true;
+            } else {
+                i += 1;
+            }
+        }
+        if c.valid.is_some() {
+            let mut d = c.clone();
+            d.valid = None;
+            if still_fails(&d.render()) {
+                c = d;
+                progress = true;
+            }
+        }
+    }
+    c
 }
